@@ -27,9 +27,15 @@ def tracer(frame, event, arg):
             count[0] += 1
             line_fns.append(code.co_name)
             if gate and count[0] == gate.get("line"):
-                open(gate["reached"], "w").write(str(frame.f_lineno))
+                # a worker that is inside a transaction may hold the database's write lock: suspending it there for longer than
+                # the others' busy timeout (5 s) is not a schedule the lock discipline admits, so the pause is limited to 1 s
+                holder = frame.f_locals.get("wtp") or frame.f_locals.get("self") or frame.f_locals.get("ctx")
+                conn = getattr(holder, "db_conn", None)
+                in_txn = bool(getattr(conn, "in_transaction", False))
+                open(gate["reached"], "w").write("%d txn=%d" % (frame.f_lineno, in_txn))
+                res["gate_in_txn"] = in_txn
                 t0 = time.time()
-                while not os.path.exists(gate["release"]) and time.time() - t0 < 30:
+                while not os.path.exists(gate["release"]) and time.time() - t0 < (1.0 if in_txn else 30):
                     time.sleep(0.005)
         return local
     return local
